@@ -76,10 +76,18 @@ TrConc ==
               ELSE "BAD_CONC_WRITES_NOT_SERIALIZABLE"
      IN /\ counts' = Bump(counts, c) /\ judged' = judged + 1
         /\ bad' = IF c = "OK_CONC_SERIALIZABLE" THEN bad ELSE Append(bad, [l |-> l, cls |-> c, ref |-> "", note |-> Ev1.backend])
+\* C14 under concurrency: after a burst of concurrent writers has finished, a paginated walk of the
+\* changelog returns every entry of the burst exactly once (delivered = distinct = written).
+TrBurst ==
+  /\ IsEvent("BurstWalk")
+  /\ LET c == IF Ev1.delivered = Ev1.written /\ Ev1.distinct = Ev1.written THEN "OK_BURST_WALK"
+              ELSE IF Ev1.distinct < Ev1.written THEN "BAD_BURST_WALK_ENTRIES_SKIPPED" ELSE "BAD_BURST_WALK_ENTRIES_REPEATED"
+     IN /\ counts' = Bump(counts, c) /\ judged' = judged + 1
+        /\ bad' = IF c = "OK_BURST_WALK" THEN bad ELSE Append(bad, [l |-> l, cls |-> c, ref |-> ToString(Ev1.written), note |-> Ev1.backend])
 TrEnd ==
   /\ IsEvent("End")
   /\ PrintT(<<"VERIF", "END", ToJson([l |-> l, judged |-> judged, skipped |-> 0, bad |-> bad, counts |-> counts])>>)
   /\ UNCHANGED <<bad, counts, judged>>
-Spec == Init /\ [][TrConc \/ TrEnd]_vars
+Spec == Init /\ [][TrConc \/ TrBurst \/ TrEnd]_vars
 TraceAccepted == TLCGet("stats").diameter - 1 = Len(Trace)
 =============================================================================
